@@ -105,42 +105,45 @@ class Exp:
         return "<%s -> %s:%s>" % (self.desc, self.addr, self.port)
 
 
-def match(exps, actual):
-    """actual: list of (src_port, dst_addr, dst_port, payload).  Returns None when
-    a consistent assignment exists (callbacks of the chosen alternatives are run),
-    else a description of the mismatch."""
+def match(exps, actual, model=None):
+    """actual: list of (src_port, dst_addr, dst_port, payload).  Returns None when a consistent
+    assignment exists, else a description of the mismatch.  Expectations are processed in order;
+    an expectation's alternatives may depend on the (drop-budget) state left by the alternatives
+    chosen for the earlier ones: alts is either a list of (pred | None, newstate | None) or a
+    callable state -> such a list.  With `model` the final state is committed to it."""
     actual = list(actual)
     used = [False] * len(actual)
-    chosen = []
+    st0 = model.drop_state() if model is not None else None
+    final = []
 
-    def rec(i):
+    def rec(i, st):
         if i == len(exps):
-            return all(used)
+            if all(used):
+                final.append(st)
+                return True
+            return False
         e = exps[i]
-        for alt in e.alts:
-            pred, cb = alt
+        alts = e.alts(st) if callable(e.alts) else e.alts
+        for pred, nst in alts:
+            if not isinstance(nst, dict):
+                nst = st
             if pred is None:
-                chosen.append(cb)
-                if rec(i + 1):
+                if rec(i + 1, nst):
                     return True
-                chosen.pop()
                 continue
             for j, a in enumerate(actual):
                 if used[j] or a[2] != e.port or a[1] != e.addr:
                     continue
                 if pred(a[3]):
                     used[j] = True
-                    chosen.append(cb)
-                    if rec(i + 1):
+                    if rec(i + 1, nst):
                         return True
-                    chosen.pop()
                     used[j] = False
         return False
 
-    if rec(0):
-        for cb in chosen:
-            if cb:
-                cb()
+    if rec(0, st0):
+        if model is not None and final[0] is not None:
+            model.set_drop_state(final[0])
         return None
     return "expected %r, observed %r" % (exps, [(a[1], a[2], a[3][:24].hex() + ("..." if len(a[3]) > 24 else ""), len(a[3])) for a in actual])
 
@@ -161,10 +164,66 @@ def parse_cmd(payload):
     args = []
     for p in parts[1:]:
         q = p[1:] if p[:1] == "-" else p
-        if not q or not q.isascii() or not q.isdigit() or len(q) > 9:
+        if not q or not q.isascii() or not q.isdigit() or len(q) > 40:
             return None
         args.append(int(p))
     return parts[0], args, parts[1:]
+
+
+DOC_ARGC = {"POWERON": (0,), "POWEROFF": (0,), "RXTUNE": (1,), "TXTUNE": (1,), "MEASURE": (1,), "SETFORMAT": (1,),
+            "SETPOWER": (1,), "NOMTXPOWER": (0,), "RFMUTE": (1,), "SETTA": (1,), "FAKE_TOA": (1, 2), "FAKE_RSSI": (1, 2),
+            "FAKE_CI": (1, 2), "FAKE_DROP": (1, 2), "FAKE_TRXC_DELAY": (1,)}
+
+
+def classify_ctrl(payload):
+    """Harness's own well-formedness predicate for a control datagram:
+      IGNORE   does not begin with 'CMD': no reply, no effect
+      VALID    strict grammar  CMD <VERB>( <int>)* [NUL]  : judged by the reference model
+      REJECT   strict framing, known verb, documented argument count, but an argument that is clearly not a
+               number ('abc', '', '1.5', '0x10', undecodable octets): no effect; reply absent or with non-zero status
+      AMBIG    anything else (odd whitespace/NUL placement, 'CMD?VERB', '+5', non-ASCII digits ...): the statement
+               does not say whether this is malformed; only crash-freedom, at most one reply and liveness are judged
+    """
+    b = bytes(payload)
+    if not b.startswith(b"CMD"):
+        return "IGNORE"
+    if parse_cmd(b) is not None:
+        return "VALID"
+    body = b[:-1] if b.endswith(b"\0") else b
+    if b"\0" in body or not body.startswith(b"CMD "):
+        return "AMBIG"
+    toks = body[4:].split(b" ")
+    if any(t == b"" for t in toks[1:]) or body != body.strip():
+        return "AMBIG"          # stray blanks: an implementation may strip them or see empty arguments
+    try:
+        verb = toks[0].decode("ascii")
+    except UnicodeDecodeError:
+        return "REJECT" if all(t >= 0x80 or chr(t).isalnum() for t in toks[0]) and any(t >= 0x80 for t in toks[0]) else "AMBIG"
+    args = toks[1:]
+    known = verb in DOC_ARGC or verb == "SETFH"
+    if not known:
+        return "AMBIG" if (not verb or not verb.replace("_", "").isalnum()) else "UNKNOWN"
+    if verb == "SETFH":
+        if len(args) < 4:
+            return "AMBIG"
+    elif len(args) not in DOC_ARGC[verb]:
+        return "AMBIG"
+    bad = False
+    for a in args:
+        try:
+            t = a.decode("utf-8")
+        except UnicodeDecodeError:
+            bad = True
+            continue
+        q = t[1:] if t[:1] == "-" else t
+        if q.isascii() and q.isdigit():
+            continue
+        clearly = (t == "" or any(ch.isalpha() for ch in t if ch.isascii()) or "." in t) and t.isascii() and "_" not in t
+        if clearly:
+            bad = True
+        else:
+            return "AMBIG"
+    return "REJECT" if bad else "AMBIG"
 
 
 class RefApp:
@@ -432,33 +491,47 @@ class RefApp:
             out.append(self._deliver_one(s, r, m))
         return out
 
+    def drop_state(self):
+        return {i: t.drop for i, t in enumerate(self.trx)}
+
+    def set_drop_state(self, st):
+        for i, t in enumerate(self.trx):
+            t.drop = st[i]
+
     def _deliver_one(self, s, r, m):
         d = r.d
+        ri = self.trx.index(r)
         port, addr = d.data + 100, d.addr
         fnmatch = (m["fn"] % r.drop_period == 0)
         nope_pred = self._nope_pred(r, m)
         norm_pred = self._normal_pred(s, r, m)
         desc = "burst fn=%d tn=%d from %s to %s" % (m["fn"], m["tn"], s.d.name, d.name)
-        if s.muted or r.muted:
-            # suppressed for sure; whether it eats drop budget is not specified
-            def cb(r=r):
-                if fnmatch:
-                    r.drop = frozenset(r.drop | frozenset(max(x - 1, 0) for x in r.drop))
-            return Exp(port, addr, [(nope_pred, cb)], desc + " (muted)")
-        alts = []
-        if fnmatch and any(x > 0 for x in r.drop):
-            def cb_drop(r=r):
-                r.drop = frozenset(x - 1 for x in r.drop if x > 0)
-            alts.append((nope_pred, cb_drop))
-        if (not fnmatch) or (0 in r.drop):
-            def cb_keep(r=r):
-                if fnmatch:
-                    r.drop = frozenset([0])
-            if norm_pred is not None:
-                alts.append((norm_pred, cb_keep))
-            if norm_pred is None or getattr(norm_pred, "optional", False):
-                alts.append((None, cb_keep))
-        return Exp(port, addr, alts, desc)
+        muted = s.muted or r.muted
+
+        def upd(st, new):
+            if st is None:
+                return None
+            n = dict(st)
+            n[ri] = new
+            return n
+
+        def alts(st):
+            drop = st[ri] if st is not None else r.drop
+            if muted:
+                # suppressed for sure; whether it eats drop budget is not specified
+                new = frozenset(drop | frozenset(max(x - 1, 0) for x in drop)) if fnmatch else drop
+                return [(nope_pred, upd(st, new))]
+            out = []
+            if fnmatch and any(x > 0 for x in drop):
+                out.append((nope_pred, upd(st, frozenset(x - 1 for x in drop if x > 0))))
+            if (not fnmatch) or (0 in drop):
+                ns = upd(st, frozenset([0]) if fnmatch else drop)
+                if norm_pred is not None:
+                    out.append((norm_pred, ns))
+                if norm_pred is None or getattr(norm_pred, "optional", False):
+                    out.append((None, ns))
+            return out
+        return Exp(port, addr, alts, desc + (" (muted)" if muted else ""))
 
     def _nope_pred(self, r, m):
         if r.ver == 0:
